@@ -78,7 +78,12 @@ func (w *world) stepHeight(forceTxs int) {
 		ntx = forceTxs
 	}
 	for i := 0; i < ntx; i++ {
-		g := w.genTx(ups[0])
+		g := (*genTx)(nil)
+		if w.dex != nil && t.Chance(3, 5) {
+			g = w.genDexTx(ups[0])
+		} else {
+			g = w.genTx(ups[0])
+		}
 		advFirst := t.Chance(1, 2)
 		adv := c.Prop == "C05" && t.Chance(1, 2) || c.Prop != "C05" && t.Chance(1, 8)
 		if adv && advFirst {
@@ -91,6 +96,9 @@ func (w *world) stepHeight(forceTxs int) {
 	}
 	if c.Prop == "C06" && t.Chance(2, 3) || c.Prop != "C06" && t.Chance(1, 8) {
 		w.replayAttack()
+	}
+	if w.dex != nil && t.Chance(4, 5) {
+		w.nestedCertificate(ups[0])
 	}
 	// 2. proposer
 	p := ups[t.Intn(len(ups))]
@@ -158,6 +166,13 @@ func (w *world) stepHeight(forceTxs int) {
 		c.Probe("committee_keys_below_quorum")
 		w.abandonProposal(ups)
 		return
+	}
+	// 5b. the attacker's block messages reach nodes before the honest certificate
+	if c.Prop == "C02" || t.Chance(1, 10) {
+		if t.Chance(1, 4) {
+			w.lastCertAttack(pr, ups)
+		}
+		w.certAttack(pr, vs, qc, ups)
 	}
 	// 6. delivery
 	order := t.Intn(len(ups))
@@ -314,6 +329,7 @@ func (w *world) afterCommitOracles(what string) {
 			w.checkSupply(n, s, what)
 			w.checkStaking(n, s, what)
 			w.checkCommittee(n, s, what)
+			w.checkDex(n, s, what)
 			continue
 		}
 		c.Check()
